@@ -105,80 +105,90 @@ package estargz
 //@ axiom[C14,C04] forall s string :: cleanName(cleanName(s)) == cleanName(s) && len(cleanName(s)) <= len(s)
 //@ axiom[C14,C04] forall s string :: cleanName(s) == "" || !hasSuffix(cleanName(s), "/")
 //@ axiom[C14,C04] forall s string :: len(trimPrefix(pclean("/" + s), "/")) <= len(s)
+//@ axiom[C14,C03] cleanName(PrefetchLandmark) == PrefetchLandmark && cleanName(NoPrefetchLandmark) == NoPrefetchLandmark
 //@ func path.Split
 //@   trusted
 //@   ensures len(dir) + len(file) == len(path) && (dir == "" || hasSuffix(dir, "/")) && (path != "" && !hasSuffix(path, "/") ==> len(file) >= 1)
-//@ pure wfTF(f *tarFile) bool = (f.index != nil ==> (forall k string :: k in f.index ==> f.index[k] != nil && f.index[k].header != nil && cleanName(f.index[k].header.Name) == k)) && (forall j int :: 0 <= j && j < len(f.stream) ==> f.stream[j] != nil && f.stream[j].header != nil)
+//@ pure wfTF(f *tarFile) bool = (f.index != nil ==> (forall k string :: k in f.index ==> f.index[k] != nil && f.index[k].header != nil && cleanName(f.index[k].header.Name) == k)) && (forall j int :: 0 <= j && j < len(f.stream) ==> f.stream[j] != nil && f.stream[j].header != nil && f.index != nil && cleanName(f.stream[j].header.Name) in f.index && f.index[cleanName(f.stream[j].header.Name)] == f.stream[j])
+// (the last conjunct: every entry of the stream is the indexed entry of its cleaned name, so no name occurs twice in
+// the stream -- the last duplicate of a name in the input wins, C03)
 // two tarFiles share neither their index map nor the array behind their stream (an append to one cannot reach the other)
 //@ pure sepTF(a *tarFile, b *tarFile) bool = a != b && (b.index == nil || b.index != a.index) && (len(a.stream) == 0 || ref(a.stream) != ref(b.stream))
+//@ pure noLandmark(f *tarFile) bool = f.index != nil ==> (forall k string :: k in f.index ==> k != PrefetchLandmark && k != NoPrefetchLandmark)
 //@ func (f *tarFile) add
-//@   props C14
-//@   requires wfTF(f) && e != nil && e.header != nil
+//@   props C14,C03
+//@   requires wfTF(f) && e != nil && e.header != nil && !(f.index != nil && cleanName(e.header.Name) in f.index)
 //@   modifies f.index, f.stream, f.index[*], backing(f.stream)
-//@   ensures[C14] wfTF(f) && f.index != nil && cleanName(e.header.Name) in f.index && f.index[cleanName(e.header.Name)] == e
-//@   ensures[C14] len(f.stream) == old(len(f.stream)) + 1 && f.stream[len(f.stream)-1] == e
-//@   ensures[C14] forall j int :: 0 <= j && j < old(len(f.stream)) ==> f.stream[j] == old(f.stream[j])
-//@   ensures[C14] forall k string :: k != cleanName(e.header.Name) && old(f.index != nil && k in f.index) ==> k in f.index && f.index[k] == old(f.index[k])
-//@   ensures[C14] (old(f.index) != nil ==> f.index == old(f.index)) && (old(f.index) == nil ==> fresh(f.index))
-//@   ensures[C14] ref(f.stream) == old(ref(f.stream)) || fresh(ref(f.stream))
+//@   ensures[C14,C03] wfTF(f) && f.index != nil && cleanName(e.header.Name) in f.index && f.index[cleanName(e.header.Name)] == e
+//@   ensures[C14,C03] len(f.stream) == old(len(f.stream)) + 1 && f.stream[len(f.stream)-1] == e
+//@   ensures[C14,C03] forall j int :: 0 <= j && j < old(len(f.stream)) ==> f.stream[j] == old(f.stream[j])
+//@   ensures[C14,C03] forall k string :: k != cleanName(e.header.Name) && old(f.index != nil && k in f.index) ==> k in f.index && f.index[k] == old(f.index[k])
+//@   ensures[C14,C03] forall k string :: k in f.index ==> (k == cleanName(e.header.Name) || old(f.index != nil && k in f.index))
+//@   ensures[C14,C03] (old(f.index) != nil ==> f.index == old(f.index)) && (old(f.index) == nil ==> fresh(f.index))
+//@   ensures[C14,C03] ref(f.stream) == old(ref(f.stream)) || fresh(ref(f.stream))
 //@ func (f *tarFile) get
-//@   props C14
+//@   props C14,C03
 //@   requires wfTF(f)
 //@   modifies nothing
-//@   ensures[C14] ok <==> (f.index != nil && cleanName(name) in f.index)
-//@   ensures[C14] ok ==> e == f.index[cleanName(name)] && e != nil && e.header != nil
+//@   ensures[C14,C03] ok <==> (f.index != nil && cleanName(name) in f.index)
+//@   ensures[C14,C03] ok ==> e == f.index[cleanName(name)] && e != nil && e.header != nil
 //@ func (f *tarFile) dump
-//@   props C14
+//@   props C14,C03
 //@   requires wfTF(f)
 //@   modifies nothing
-//@   ensures[C14] len(skip) == 0 ==> result == f.stream
-//@   ensures[C14] len(result) <= len(f.stream) && (forall j int :: 0 <= j && j < len(result) ==> result[j] != nil && result[j].header != nil)
-//@   loop 0 invariant[C14] len(out) <= max(rangeidx + 1, 0) && (forall j int :: 0 <= j && j < len(out) ==> out[j] != nil && out[j].header != nil)
-//@   loop 0 invariant[C14] forall j int :: 0 <= j && j < len(f.stream) ==> f.stream[j] != nil && f.stream[j].header != nil
-//@   loop 0 invariant[C14] cap(out) > 0 ==> fresh(ref(out)) && ref(out) != ref(f.stream)
-//@   loop 0 invariant[C14] forall j int :: 0 <= j && j < len(out) ==> !(cleanName(out[j].header.Name) in skip)
-//@   loop 0 step[C14] (cleanName(e.header.Name) in skip) ? len(out) == prev(len(out)) : (len(out) == prev(len(out)) + 1 && out[len(out)-1] == e)
-//@   ensures[C14] len(skip) != 0 ==> (forall j int :: 0 <= j && j < len(result) ==> !(cleanName(result[j].header.Name) in skip))
+//@   ensures[C14,C03] len(skip) == 0 ==> result == f.stream
+//@   ensures[C14,C03] len(result) <= len(f.stream) && (forall j int :: 0 <= j && j < len(result) ==> result[j] != nil && result[j].header != nil)
+//@   loop 0 invariant[C14,C03] len(out) <= max(rangeidx + 1, 0) && (forall j int :: 0 <= j && j < len(out) ==> out[j] != nil && out[j].header != nil)
+//@   loop 0 invariant[C14,C03] forall j int :: 0 <= j && j < len(f.stream) ==> f.stream[j] != nil && f.stream[j].header != nil
+//@   loop 0 invariant[C14,C03] cap(out) > 0 ==> fresh(ref(out)) && ref(out) != ref(f.stream)
+//@   loop 0 invariant[C14,C03] forall j int :: 0 <= j && j < len(out) ==> !(cleanName(out[j].header.Name) in skip)
+//@   loop 0 step[C14,C03] (cleanName(e.header.Name) in skip) ? len(out) == prev(len(out)) : (len(out) == prev(len(out)) + 1 && out[len(out)-1] == e)
+//@   ensures[C14,C03] len(skip) != 0 ==> (forall j int :: 0 <= j && j < len(result) ==> !(cleanName(result[j].header.Name) in skip))
 
 // moveRec: everything recorded in `picked` has been appended to `out` (so the final dump of the input minus `picked`
 // loses nothing), also on the error returns; the input is only read; the recursion on the parent directory terminates
 // (shorter cleaned name); the recursion on a hardlink target has no measure.
-//@ pure pickedInOut(out *tarFile, picked map[string]struct{}) bool = forall k string :: k in picked ==> (out.index != nil && k in out.index)
+//@ pure pickedInOut(out *tarFile, picked map[string]struct{}) bool = forall k string :: k in picked <==> (out.index != nil && k in out.index)
 //@ func moveRec
 //@   props C14,C04
 //@   decreases len(cleanName(name))
-//@   requires in != nil && out != nil && picked != nil && wfTF(in) && wfTF(out) && pickedInOut(out, picked) && sepTF(in, out)
+//@   requires in != nil && out != nil && picked != nil && wfTF(in) && wfTF(out) && pickedInOut(out, picked) && sepTF(in, out) && noLandmark(in) && noLandmark(out)
 //@   modifies out.index, out.stream, out.index[*], backing(out.stream), picked[*]
 //@   ensures[C14] wfTF(out)
 //@   ensures[C14] pickedInOut(out, picked)
 //@   ensures[C14] wfTF(in)
 //@   ensures[C14] sepTF(in, out)
+//@   ensures[C14] noLandmark(out)
 //@   ensures[C14] (old(out.index) != nil ==> out.index == old(out.index)) && (old(out.index) == nil ==> out.index == nil || fresh(out.index))
 //@   ensures[C14] ref(out.stream) == old(ref(out.stream)) || fresh(ref(out.stream))
 
 // importTar: an input entry whose cleaned name is a landmark is dropped (the builder adds its own single landmark)
 //@ func importTar
-//@   props C14
+//@   props C14,C03
 //@   requires in != nil
 //@   assume after "tf := &tarFile{}" : wfTF(tf)
-//@   loop 0 invariant[C14] tf != nil && wfTF(tf) && fresh(tf)
-//@   ensures[C14] err == nil ==> result0 != nil && wfTF(result0) && fresh(result0)
-//@   assert[C14] before "if _, ok := tf.get(h.Name); ok {" : h != nil && cleanName(h.Name) != PrefetchLandmark && cleanName(h.Name) != NoPrefetchLandmark
+//@   loop 0 invariant[C14,C03] tf != nil && wfTF(tf) && fresh(tf) && noLandmark(tf)
+//@   ensures[C14,C03] err == nil ==> result0 != nil && wfTF(result0) && fresh(result0) && noLandmark(result0)
+//@   assert[C14,C03] before "tf.add(&entry{" : h != nil && cleanName(h.Name) != PrefetchLandmark && cleanName(h.Name) != NoPrefetchLandmark
 
 // sortEntries: after the prioritized entries exactly one landmark entry is appended -- the no-prefetch landmark iff the
 // list is empty -- and the result is that prefix followed by the remaining input entries
 //@ func sortEntries
-//@   props C14
+//@   props C14,C03
 //@   requires in != nil
-//@   loop 0 invariant[C14] sorted != nil && intar != nil && picked != nil && wfTF(sorted) && wfTF(intar) && pickedInOut(sorted, picked) && sepTF(intar, sorted)
+//@   loop 0 invariant[C14] sorted != nil && intar != nil && picked != nil && wfTF(sorted) && wfTF(intar) && pickedInOut(sorted, picked) && sepTF(intar, sorted) && noLandmark(intar) && noLandmark(sorted)
 //@   assert[C14] before "return append(sorted.dump(nil), intar.dump(picked)...), nil" : len(sorted.stream) >= 1 && sorted.stream[len(sorted.stream)-1].header.Name == (len(prioritized) == 0 ? NoPrefetchLandmark : PrefetchLandmark)
-//@   assert[C14] before "return append(sorted.dump(nil), intar.dump(picked)...), nil" : pickedInOut(sorted, picked) && wfTF(intar)
+//@   ensures[C14,C03] err == nil ==> (forall j int :: 0 <= j && j < len(result0) ==> result0[j] != nil && result0[j].header != nil)
+//@   assert[C14] before "return append(sorted.dump(nil), intar.dump(picked)...), nil" : (forall k string :: k in picked ==> sorted.index != nil && k in sorted.index) && wfTF(intar) && wfTF(sorted)
 //@ func (f *tarFile) remove
-//@   props C14
+//@   props C14,C03
 //@   requires wfTF(f)
 //@   modifies f.index[*], f.stream
-//@   loop 0 invariant[C14] (forall j int :: 0 <= j && j < len(filtered) ==> filtered[j] != nil && filtered[j].header != nil) && (forall j int :: 0 <= j && j < len(f.stream) ==> f.stream[j] != nil && f.stream[j].header != nil) && (cap(filtered) > 0 ==> fresh(ref(filtered)) && ref(filtered) != ref(f.stream))
-//@   ensures[C14] wfTF(f)
+//@   loop 0 invariant[C14,C03] (forall j int :: 0 <= j && j < len(filtered) ==> filtered[j] != nil && filtered[j].header != nil && cleanName(filtered[j].header.Name) != name && f.index != nil && cleanName(filtered[j].header.Name) in f.index && f.index[cleanName(filtered[j].header.Name)] == filtered[j])
+//@   loop 0 invariant[C14,C03] (forall j int :: 0 <= j && j < len(f.stream) ==> f.stream[j] != nil && f.stream[j].header != nil && (cleanName(f.stream[j].header.Name) != name ==> f.index != nil && cleanName(f.stream[j].header.Name) in f.index && f.index[cleanName(f.stream[j].header.Name)] == f.stream[j])) && (cap(filtered) > 0 ==> fresh(ref(filtered)) && ref(filtered) != ref(f.stream))
+//@   loop 0 invariant[C14,C03] name == cleanName(old(name)) && !(f.index != nil && name in f.index) && (f.index != nil ==> (forall k string :: k in f.index ==> f.index[k] != nil && f.index[k].header != nil && cleanName(f.index[k].header.Name) == k))
+//@   ensures[C14,C03] wfTF(f) && !(f.index != nil && cleanName(name) in f.index)
+//@   ensures[C14,C03] f.index == old(f.index) && (f.index != nil ==> (forall k string :: k in f.index ==> old(k in f.index)))
 //@ func newCountReadSeeker
 //@   props C14
 //@   ensures[C14] err == nil && result0 != nil && result0.cPos != nil
@@ -207,6 +217,7 @@ package estargz
 //@   loop 2 invariant[C03] 0 <= written && written <= totalSize && ent != nil && ent.InnerOffset == 0 && (forall j int :: 0 <= j && j < len(w.toc.Entries) ==> w.toc.Entries[j] != ent)
 //@   loop 2 decreases totalSize - written
 //@   loop 2 step[C03] len(w.toc.Entries) == prev(len(w.toc.Entries)) + 1 && w.toc.Entries[len(w.toc.Entries)-1].ChunkOffset == prev(written) && written > prev(written) && (written < totalSize ==> w.toc.Entries[len(w.toc.Entries)-1].ChunkSize == written - prev(written))
+//@   assert[C03] after "_, err := io.Copy(remainDest" : drained == tarSrc[ref(tr)]
 //@   assert[C03] before "ent.ChunkOffset = written" : 0 <= ent.Offset
 //@   assert[C03] before "ent.ChunkOffset = written" : ent.Offset <= w.cw.n
 //@   assert[C03] before "ent.ChunkOffset = written" : ent.InnerOffset >= 0
@@ -222,3 +233,58 @@ package estargz
 //@   props C03
 //@   arith math
 //@   requires wc.WriteCloser != nil
+
+// The bytes that follow the end-of-archive marker are taken from the same stream the tar reader consumed (in lossless
+// mode they are part of the output): tarSrc records the source of a tar.Reader, drained the source of the last io.Copy.
+//@ ghost tarSrc map[ref]ref
+//@ ghost drained ref
+//@ func github.com/vbatts/tar-split/archive/tar.NewReader
+//@   trusted
+//@   modifies tarSrc[*]
+//@   ensures result != nil && fresh(result) && tarSrc[ref(result)] == payload(r)
+//@   ensures forall x ref :: x != ref(result) ==> tarSrc[x] == old(tarSrc[x])
+//@ func io.Copy
+//@   trusted
+//@   modifies drained
+//@   ensures drained == payload(src)
+
+// divideEntries: every entry goes, in order, to the part that is last at that moment; a new (empty) part may be opened
+// after it. The unit size is a quotient by the worker count, which callers keep positive.
+//@ func divideEntries
+//@   props C03
+//@   arith math
+//@   requires minPartsNum > 0 && (forall j int :: 0 <= j && j < len(entries) ==> entries[j] != nil && entries[j].header != nil)
+//@   loop 1 invariant[C03] len(set) >= 1 && fresh(ref(set)) && (forall k int :: 0 <= k && k < len(set) ==> cap(set[k]) == 0 || fresh(ref(set[k])))
+//@   loop 1 invariant[C03] forall j int :: 0 <= j && j < len(entries) ==> entries[j] != nil && entries[j].header != nil
+//@   loop 1 step[C03] len(set) >= prev(len(set)) && len(set) <= prev(len(set)) + 1 && len(set[prev(len(set))-1]) == prev(len(set[len(set)-1])) + 1 && set[prev(len(set))-1][len(set[prev(len(set))-1])-1] == e && (len(set) > prev(len(set)) ==> len(set[len(set)-1]) == 0)
+//@   ensures[C03] len(set) >= 1
+
+//@ pure wsOK(ws []*Writer) bool = forall k int :: 0 <= k && k < len(ws) ==> ws[k] != nil && ws[k].toc != nil && ws[k].cw != nil && ws[k].bw != nil && ws[k].compressor != nil && (forall j int :: 0 <= j && j < len(ws[k].toc.Entries) ==> ws[k].toc.Entries[j] != nil) && (len(ws[k].toc.Entries) > 0 ==> !fresh(ref(ws[k].toc.Entries))) && !fresh(ws[k].toc)
+// closeWithCombine: an entry that carries data is re-based by the bytes of the writers before its own; offsets stay
+// positions inside the combined blob.
+//@ func closeWithCombine
+//@   props C03
+//@   arith math
+//@   requires wsOK(ws)
+//@   loop 0 invariant[C03] wsOK(ws)
+//@   loop 1 invariant[C03] wsOK(ws) && mtoc != nil && fresh(mtoc) && (cap(mtoc.Entries) == 0 || fresh(ref(mtoc.Entries)))
+//@   loop 2 invariant[C03] wsOK(ws) && mtoc != nil && fresh(mtoc) && (cap(mtoc.Entries) == 0 || fresh(ref(mtoc.Entries))) && w != nil && w.toc != nil && w.cw != nil && (forall j int :: 0 <= j && j < len(rangeslice) ==> rangeslice[j] != nil) && (len(rangeslice) > 0 ==> !fresh(ref(rangeslice)))
+//@   loop 2 step[C03] len(mtoc.Entries) == prev(len(mtoc.Entries)) + 1 && mtoc.Entries[len(mtoc.Entries)-1] == e && e.Offset == prevmem(e.Offset) + (((e.Type == "reg" && e.Size > 0) || e.Type == "chunk") ? currentOffset : 0)
+
+// Build: the sub-blob workers report at most one error each into errCh, which is drained only after all of them have
+// finished: its buffer must hold one slot per worker started, or failing workers block for ever (C04: never a hang).
+// The unit size of the split is a quotient by the worker count, kept positive (C03).
+//@ type tempFiles
+//@   guards[C04] filesMu: files
+//@   invariant[C04] filesMu: forall j int :: 0 <= j && j < len(self.files) ==> self.files[j] != nil
+//@ func (tf *tempFiles) cleanupAll
+//@   props C04
+//@   loop 0 invariant[C04] forall j int :: 0 <= j && j < len(rangeslice) ==> rangeslice[j] != nil
+//@ func (tf *tempFiles) TempFile
+//@   props C04
+//@   ensures err == nil ==> result0 != nil
+//@ func Build
+//@   props C04,C03
+//@   requires tarBlob != nil && (forall j int :: 0 <= j && j < len(opt) ==> opt[j] != nil)
+//@   assert[C04] before "wg.Wait()" : cap(errCh) >= len(tarParts)
+//@   assume before "tocAndFooter, tocDgst, err := closeWithCombine(writers...)" : wsOK(writers) && (forall j int :: 0 <= j && j < len(payloads) ==> payloads[j] != nil)
